@@ -325,8 +325,13 @@ func doCheck(p *propCfg, tier string) int {
 			if werr != nil || results[i] == nil {
 				lg, _ := os.ReadFile(filepath.Join(dir, fmt.Sprintf("log_%d.txt", i)))
 				tail := string(lg)
-				if len(tail) > 3000 {
-					tail = tail[len(tail)-3000:]
+				if i := strings.Index(tail, "fatal error"); i >= 0 {
+					tail = tail[i:]
+				} else if i := strings.Index(tail, "panic:"); i >= 0 {
+					tail = tail[i:]
+				}
+				if len(tail) > 1500 {
+					tail = tail[:1500]
 				}
 				errs[i] = fmt.Sprintf("worker %d failed: %v\n%s", i, werr, tail)
 			}
